@@ -5,6 +5,10 @@ def classify(case_line):
     # backendAction set; the main stream never does, so nothing else can hide behind this key.
     if "stream:unknown-action" in case_line.get("tags", []):
         return "rule-action-not-validated"
+    # Likewise the stream:hep-label cases (every 10th, offset 5) give a host endpoint a label value that breaks the
+    # validator's "labels" rule; the main stream never does.
+    if "stream:hep-label" in case_line.get("tags", []):
+        return "hostendpoint-labels-not-validated"
     return None
 
 
@@ -19,7 +23,7 @@ CFG = dict(
          "into the whole real calculation graph + EventSequencer (every 4th case: proto.ActiveProfileUpdate/Remove compared as "
          "the dataplane's profile view after every update); every 5th case chains Typha's own ValidationFilter in front of "
          "Felix's, as in a Typha deployment; values are valid or made invalid in one of ~20 ways; every 10th case "
-         "is the unknown-rule-action stream; "
+         "is the unknown-rule-action stream, another 10th the invalid-host-endpoint-label stream; "
          "non-trivial = the deny stand-in was emitted for a referenced missing profile AND the history contains a late creation, "
          "a delete while referenced, or an invalid version written over a valid one; distinct by update sequence",
     trusted=["Coq 8.16.1 kernel + vm_compute",
